@@ -46,6 +46,11 @@ func (w *World) inBlockStmtEval() *FuncInfo {
 }
 
 func (w *World) coreModel() *coreModel {
+	w.coreOnce.Do(func() { w.coreMdl = w.buildCoreModel() })
+	return w.coreMdl
+}
+
+func (w *World) buildCoreModel() *coreModel {
 	w.SSA()
 	m := &coreModel{w: w, curStmtIdx: -1}
 	fn := func(f *FuncInfo) *ssa.Function {
